@@ -15,18 +15,24 @@ LEAN_TARGETS = ["Asynkit.Props.C08", "Asynkit.Lemmas.GenEqC08", "Asynkit.Lemmas.
 PROPS_FILES = ["Asynkit/Props/C08.lean", "Asynkit/Lemmas/GenEqC08.lean", "Asynkit/Lemmas/GenEqSched.lean", "Asynkit/Lemmas/GenEqPosPQ.lean", "Asynkit/Lemmas/GenEqPQ.lean"]
 DRIVERS = ["Sched"]
 TRUSTED = [
-    "Lean 4.33 kernel; axioms ⊆ {propext, Classical.choice, Quot.sound} (audited per theorem each run)",
-    "hand-written models Asynkit/Model/{Deque,Sched}.lean (+ the container models Heap/PQ/PosPQ), tied to "
-    "src/asynkit/{scheduling.py,tools.py,loop/default.py,loop/eventloop.py,loop/extensions.py,"
-    "experimental/priority.py} by the differential correspondence of this run (lean/Drivers/Sched.lean)",
-    "translator/py2lean.py regenerates Asynkit/Gen/Sched.lean from the source on every run (deque_pop, queue_find, "
-    "call_pos statement by statement); Lemmas/GenEqC08.lean proves them equal to the Model/Deque definitions",
-    "modelled, not verified: collections.deque rotate/popleft/pop/append/remove/insert (remove takes the first "
-    "equal element, insert clamps like list.insert); asyncio call_soon appends one Handle, Task.__step "
-    "re-schedules itself with call_soon on a bare yield, _run_once pops handles from the left; "
-    "Future.set_result call_soon's the waiter's wakeup",
-    "CPython heapq meets its documented contract (HeapLib.Lawful hypothesis of listLike_priority_loop)",
-    "the RLock added around PosPriorityQueue operations is not modelled (single-threaded semantics; C18)",
+    'Lean 4.33 kernel; axioms ⊆ {propext, Classical.choice, Quot.sound} (audited per theorem each run)',
+    'hand-written and tied only by the differential correspondence of this run (lean/Drivers/Sched.lean): '
+    "asyncio's stepping inside Asynkit/Model/Sched.lean (call_soon, Task.__step re-scheduling, _run_once) and the"
+    ' program interpreter; the coroutine halves of sleep_insert/task_switch/create_task_* after their suspension '
+    'point',
+    'translated, not trusted: deque_pop, queue_find, call_pos (translator/py2lean.py -> Gen/Sched.lean; '
+    'Lemmas/GenEqC08.lean, 3 theorems); _task_reinsert, task_reinsert, sleep_insert, task_switch, '
+    "create_task_descend/start up to their suspension point, the ready_* wrappers and the three loop classes' "
+    'queue methods (translator/sched2lean.py -> Gen/SchedOps.lean; Lemmas/GenEqSched.lean, 18 theorems); the '
+    "priority loop's containers PosPriorityQueue / PriorityQueue (pospq2lean.py, pq2lean.py; GenEqPosPQ 41, "
+    'GenEqPQ 29 theorems) - all re-translated from the source on every run and proved equal to '
+    'Model/{Deque,Sched,PosPQ,PQ}',
+    'modelled, not verified: collections.deque rotate/popleft/pop/append/remove/insert (remove takes the first '
+    'equal element, insert clamps like list.insert); asyncio call_soon appends one Handle, Task.__step '
+    're-schedules itself with call_soon on a bare yield, _run_once pops handles from the left; Future.set_result '
+    "call_soon's the waiter's wakeup",
+    'CPython heapq meets its documented contract (HeapLib.Lawful hypothesis of listLike_priority_loop)',
+    'the RLock added around PosPriorityQueue operations is not modelled (single-threaded semantics; C18)',
 ]
 ASSUMPTIONS = [
     "a handle is queued at most once at a time (programs never re-insert a handle that is still queued)",
